@@ -35,6 +35,9 @@ struct KllFam {
     return SK<K>::deserialize(bytes.data(), bytes.size(), serde<T>(), cmp);
   }
 
+  static const bool self_merge_ok = true;
+  // KLL keeps no empty-level pattern that is a function of (k, n); count estimating sources
+  static bool convert_gap(uint32_t k, uint64_t n) { return n > k; }
   static uint64_t exact_cap(uint32_t k) { return k; }
 
   // stated space bound: get_max_serialized_size_bytes(k, n) "is an overestimate to make sure actual sketches
